@@ -2,6 +2,29 @@
 import itertools
 from check import Property
 from props import coreutil as cu
+from props import pcutil as pu
+
+PC_ALG = "-|3:43c80000"
+
+
+def pc_line(rng, hist, ini):
+    """hist over {s1,s2 (seal at end 1/2), d<k> (re-deliver k-th last data datagram of the other end), t1,t2 (tick)}"""
+    s1, s2 = rng.sample(range(1, 1 << 31), 2)
+    toks = [pu.obj(1, 1, s1, 1, [1], PC_ALG, "aa"), pu.obj(2, 2, s2, 1, [1], PC_ALG, "bb")]
+    oth = 3 - ini
+    toks += ["I.%d" % ini, "D.%d.0" % oth, "D.%d.1" % ini, "D.%d.2" % oth, "D.%d.3" % ini]
+    n = 0
+    for h in hist:
+        if h[0] == "s":
+            n += 1
+            toks.append("S.%s.0.%04x" % (h[1], n))
+        elif h[0] == "t":
+            toks.append("E.%s" % h[1])
+        else:
+            # d<dst><k>: deliver to dst the k-th last data datagram sealed by the other end
+            dst = int(h[1])
+            toks.append("L.%d.%d.d.%s" % (dst, 3 - dst, h[2:]))
+    return "pc " + " ".join(toks)
 
 
 def histories(max_len, max_d):
@@ -89,19 +112,82 @@ class C03(Property):
                     toks.append("p.b")
             toks.append("p.b")
             out.append(cu.header(rng) + " " + " ".join(toks))
+        # the same through PeerCrypto after a real handshake, towards the handshake initiator (which keeps its
+        # handshake object for another 60 ticks) and towards the responder
+        for _ in range(4000 if thorough else 500):
+            ini = rng.choice([1, 2])
+            hist = []
+            for _ in range(rng.choice([6, 12, 30])):
+                r = rng.random()
+                e = rng.choice("12")
+                if r < 0.35:
+                    hist.append("s" + e)
+                elif r < 0.7:
+                    hist.append("d%s%d" % (e, rng.choice([0, 0, 1, 2, 3])))
+                else:
+                    hist.append("t" + e)
+            out.append(pc_line(rng, hist, ini))
+        for ini in (1, 2):
+            for dst in (1, 2):
+                src = 3 - dst
+                for k in range(0, 6):
+                    hist = ["s%d" % src, "d%d0" % dst] + ["t%d" % dst] * k + ["d%d0" % dst]
+                    out.append(pc_line(rng, hist, ini))
+                    hist = ["s%d" % src, "s%d" % src, "d%d0" % dst, "d%d1" % dst] + ["t%d" % dst] * k + ["d%d0" % dst, "d%d1" % dst]
+                    out.append(pc_line(rng, hist, ini))
         return out
 
     def nontrivial(self, line, impl_out):
         toks = impl_out.split()
+        if line.startswith("pc "):
+            return "err" in toks and any(t.startswith("Msg0:") for t in toks)
         return "err" in toks and any(t.startswith("ok:") for t in toks)
 
     def tag(self, line, impl_out):
         toks = impl_out.split()
+        if line.startswith("pc "):
+            return "pc:ok%d/err%d" % (min(3, sum(t.startswith("Msg0:") for t in toks)), min(3, toks.count("err")))
         return "ok%d/err%d/rot%d" % (min(3, sum(t.startswith("ok:") for t in toks)), min(3, toks.count("err")),
                                       min(1, line.count(" n.a.")))
 
+    def oracle_pc(self, line, impl_out):
+        ops = line.split()[1:]
+        outs = impl_out.split()
+        if len(ops) != len(outs):
+            return "driver returned %d results for %d ops" % (len(outs), len(ops))
+        sent = {1: [], 2: []}            # payload tags in sealing order per sender
+        G = {1: ([], [], []), 2: ([], [], [])}   # per receiver: counters (= sealing order index) accepted
+        for i, (o, r) in enumerate(zip(ops, outs)):
+            p = o.split(".")
+            if r.startswith("panic"):
+                return "panic at op %d" % i
+            if p[0] == "S":
+                sent[int(p[1])].append(p[3])
+            elif p[0] == "E":
+                e = int(p[1])
+                g2, g1, g0 = G[e]
+                G[e] = (g2 + g1, g0, [])
+            elif p[0] == "L" and p[3] == "d":
+                dst, src, k = int(p[1]), int(p[2]), int(p[4])
+                if k >= len(sent[src]):
+                    continue
+                idx = len(sent[src]) - 1 - k       # sealing order = counter order
+                g2, g1, g0 = G[dst]
+                want = all(m < idx for m in g2)
+                got = r.startswith("Msg0:")
+                if want != got:
+                    return ("PeerCrypto end %d %s datagram #%d of its peer although the datagrams accepted before the tick preceding the most "
+                            "recent tick are %s") % (dst, "accepted" if got else "rejected", idx, g2)
+                if got:
+                    if r != "Msg0:" + sent[src][idx]:
+                        return "payload altered"
+                    g0.append(idx)
+        return None
+
     def oracle(self, line, impl_out):
         """history-only reference on the real accept/reject outcomes (histories without rotation)"""
+        if line.startswith("pc "):
+            return self.oracle_pc(line, impl_out)
         alg, key, ra, rb, ops = cu.parse_line(line)
         if any(o.startswith("n.") for o in ops):
             return None
